@@ -30,9 +30,10 @@ def cfg_rules(ctx, cfg):
     return [(ctx.D.term(r.w), r.head, tuple(r.body)) for r in cfg.rules]
 
 
-def automaton_weights(ctx, sk, offset=0):
+def automaton_weights(ctx, sk, offset=0, always=()):
     n = sk.K
-    return [ctx.D.var(offset + k, positive=(k in sk.always)) for k in range(n)]
+    alw = set(sk.always) | set(always)
+    return [ctx.D.var(offset + k, positive=(k in alw)) for k in range(n)]
 
 
 def split_weights(sk, ws):
